@@ -64,17 +64,50 @@ RelabelTr(tr, p) ==
    nodes |-> [ i \in DOMAIN tr.nodes |->
                  [tr.nodes[i] EXCEPT !.parent = SortedSeq(Img(p, ToSet(tr.nodes[i].parent)))] ]]
 SymVariants(tr) == { RelabelTr(tr, p) : p \in IdentPerms(tr) }
+\* the symmetrisation proper: the same decay chain with the identical particles exchanged *together with their
+\* states* (the particle with id p[i] now plays the part of particle i, projection included).  The variant describes
+\* the final state in which id p[i] carries the projection tr gave to i, so it contributes to the amplitude of THAT
+\* tuple of outer projections (for spinless or equal projections: the same tuple).
+PermuteTr(tr, p) ==
+  [edges |-> [ i \in DOMAIN tr.edges |-> [tr.edges[i] EXCEPT !.set = SortedSeq(Img(p, ToSet(tr.edges[i].set)))] ],
+   nodes |-> [ i \in DOMAIN tr.nodes |->
+                 [tr.nodes[i] EXCEPT !.parent = SortedSeq(Img(p, ToSet(tr.nodes[i].parent)))] ]]
+\* permutations that lead to the same relabelled tree (they only exchange identical particles below one node) are one
+\* variant: no combinatorics for identical particles that leave the same node; the identity represents its class
+IdPerm(tr) == [ i \in Leaves(tr) |-> i ]
+TreeUnder(tr, p) == { Img(p, S) : S \in TreeOf(tr) }
+PermClassRep(tr, p) == IF TreeUnder(tr, p) = TreeOf(tr) THEN IdPerm(tr)
+                       ELSE CHOOSE q \in IdentPerms(tr) : TreeUnder(tr, q) = TreeUnder(tr, p)
+AllDistinct(tr) == \A i, j \in Leaves(tr) : i # j => Part(tr, {i}) # Part(tr, {j})
+PermVariants(tr) == IF AllDistinct(tr) THEN {tr}      \* (no identical particles: PermuteTr(tr, identity) = tr)
+                    ELSE { PermuteTr(tr, PermClassRep(tr, p)) : p \in IdentPerms(tr) }
 
 \* ---- the formula: expected chains of the amplitude with key k --------------------------------
 Term(tr, canonical) == [D |-> ChainD(tr), CG |-> IF canonical THEN ChainCG(tr) ELSE <<>>]
 \* pairs <<index, variant>> so that equal terms of different transitions are counted separately
+\* (the amplitude symbol is named after the topology of the transition as listed in the reaction)
+VariantKey(trs, i, w) == <<TopoId(TreeOf(trs[i])), OuterHel(w)>>
 ExpectedChains(trs, k) ==
-  UNION { { <<i, v>> : v \in SymVariants(trs[i]) } : i \in { j \in DOMAIN trs : AmpKey(trs[j]) = k } }
+  UNION { { <<i, v>> : v \in { w \in PermVariants(trs[i]) : VariantKey(trs, i, w) = k } } : i \in DOMAIN trs }
 ExpectedTermBag(trs, k, canonical) ==
   LET cs == ExpectedChains(trs, k)
       ts == { Term(c[2], canonical) : c \in cs } IN
   [ t \in ts |-> Cardinality({ c \in cs : Term(c[2], canonical) = t }) ]
-ExpectedKeys(trs) == { AmpKey(trs[i]) : i \in DOMAIN trs }
+\* (a symmetrisation variant may describe a tuple of outer projections that no listed transition has)
+ExpectedKeys(trs) == UNION { { VariantKey(trs, i, w) : w \in PermVariants(trs[i]) } : i \in DOMAIN trs }
+\* coherence class of a key as the implementation forms it (group_by_spin_projection: the bag of (particle, projection)):
+\* keys of one topology whose outer projections are permutations of each other among identical particles
+SameClass(trs, k1, k2) ==
+  LET ls == SortedSeq(Leaves(trs[1]))
+      Pos(x) == CHOOSE j \in DOMAIN ls : ls[j] = x IN
+  /\ k1[1] = k2[1] /\ k1[2][1] = k2[2][1]
+  /\ (k1 = k2 \/ (~ AllDistinct(trs[1]) /\ \E p \in IdentPerms(trs[1]) : \A n \in DOMAIN ls : k2[2][n + 1] = k1[2][Pos(p[ls[n]]) + 1]))
+ClassChains(trs, k) ==
+  UNION { { <<i, w>> : w \in { v \in PermVariants(trs[i]) : SameClass(trs, k, VariantKey(trs, i, v)) } } : i \in DOMAIN trs }
+ClassTermBag(trs, k, canonical) ==
+  LET cs == ClassChains(trs, k)
+      ts == { Term(c[2], canonical) : c \in cs } IN
+  [ t \in ts |-> Cardinality({ c \in cs : Term(c[2], canonical) = t }) ]
 
 \* ---- intensity: incoherent sum over the product of the observed outer projections ----------------
 OuterPools(trs) == LET n == Len(OuterHel(trs[1])) IN
